@@ -23,8 +23,7 @@ HDR = '''/-
 
 namespace TfelVerif.C02.Props
 open TfelVerif TfelVerif.Mandel TfelVerif.C02
-set_option linter.unusedVariables false
-set_option linter.unusedSectionVars false
+set_option linter.all false
 set_option maxRecDepth 100000
 set_option maxHeartbeats 1600000
 
@@ -263,7 +262,7 @@ def tensor_part(N):
     def G(u, args, out="all"): return "Gen.%s%s_%s c c3 fn %s" % (n, u, out, args)
     def OT(l, e): return ("%s\n      = M3.tens3 %s" % (l, e)) if N == 3 else ("pad%d_9 (%s)\n      = M3.tens3 %s" % (N, l, e))
     def OS(l, e): return ("%s\n      = M3.mandel3 c %s" % (l, e)) if N == 3 else ("pad%d_6 (%s)\n      = M3.mandel3 c %s" % (N, l, e))
-    def R(X): return {3: X, 2: "(M3.plane %s)" % X, 1: "(1 : M3 K)"}[N]
+    def R(X): return {3: X, 2: "(M3.planeRot %s)" % X, 1: "(1 : M3 K)"}[N]
     rargs = "R.a00 R.a01 R.a02 R.a10 R.a11 R.a12 R.a20 R.a21 R.a22"
     o = ["\n/-! ## tensor<%d> -/\n" % N]
 
